@@ -39,6 +39,22 @@ LINES = {
     'TRUST_FULLY': ['[GNUPG:] TRUST_FULLY 0 pgp', '[GNUPG:] TRUST_FULLY 0 direct'],
     'TRUST_ULTIMATE': ['[GNUPG:] TRUST_ULTIMATE 0 pgp', '[GNUPG:] TRUST_ULTIMATE'],
 }
+# user IDs are copied into the status line with bytes >= 0x80 unescaped: characters that only
+# str.splitlines() takes for line ends, followed by text that looks like another status line, must
+# stay part of the ONE line they are in (gpg escapes LF and CR only)
+_UID = 'gemato test key <gemato@example.com>'
+for _sep in ('\u2028', '\u2029', '\u0085', '\x0b', '\x0c', '\x1c', '\x1d', '\x1e'):
+    for _forged in ('[GNUPG:] TRUST_ULTIMATE 0 pgp', '[GNUPG:] GOODSIG 136880E72A7B1384 x',
+                    '[GNUPG:] VALIDSIG %s 2017-11-08 1510131686 0 4 0 1 8 01 %s' % (FPR, FPR),
+                    '[GNUPG:] TRUST_FULLY 0 pgp'):
+        LINES['GOODSIG'].append('[GNUPG:] GOODSIG 136880E72A7B1384 Mallory%s%s <m@example.com>' % (_sep, _forged))
+        LINES['BADSIG'].append('[GNUPG:] BADSIG 136880E72A7B1384 Mallory%s%s <m@example.com>' % (_sep, _forged))
+    LINES['EXPKEYSIG'].append('[GNUPG:] EXPKEYSIG 136880E72A7B1384 Mallory%s[GNUPG:] GOODSIG 136880E72A7B1384 x' % _sep)
+    LINES['NEWSIG'].append('[GNUPG:] NEWSIG m%s[GNUPG:] TRUST_ULTIMATE 0 pgp' % _sep)
+# keep the plain spellings frequent
+for _k in ('GOODSIG', 'BADSIG', 'EXPKEYSIG', 'NEWSIG'):
+    LINES[_k] += [LINES[_k][0]] * (len(LINES[_k]) // 2)
+
 RAISE = {'TRUST_UNDEFINED': 'TRUST_NEVER', 'TRUST_NEVER': 'TRUST_MARGINAL', 'TRUST_MARGINAL': 'TRUST_FULLY',
          'TRUST_FULLY': 'TRUST_ULTIMATE'}
 
